@@ -7,11 +7,12 @@
 EXTENDS Naturals, FiniteSets, Sequences, TLC
 
 Kinds == {"Manifest", "Ocsp", "Tsa", "Other"}
-Assets == {"embedded", "remote_only", "remote_embedded", "unsigned"}
+Assets == {"embedded", "remote_only", "remote_embedded", "unsigned", "ocsp_signed"}   \* ocsp_signed: signed with a certificate that names an OCSP responder
 Ops == {"read", "sign", "ingredient"}
 
 \* cfg: [rmf : BOOLEAN (verify.remote_manifest_fetch), ocsp : BOOLEAN (verify.ocsp_fetch),
-\*       csf : {"none","active","all"} (builder.certificate_status_fetch), tsa : BOOLEAN (signer names a time-stamp authority)]
+\*       csf : {"none","active","all"} (builder.certificate_status_fetch), cso : BOOLEAN (builder.certificate_status_should_override
+\*       set explicitly), tsa : BOOLEAN (signer names a time-stamp authority)]
 HasRemoteRef(asset) == asset \in {"remote_only", "remote_embedded"}
 AllowedKinds(cfg, asset, op) ==
      (IF cfg.rmf /\ HasRemoteRef(asset) THEN {"Manifest"} ELSE {})
@@ -19,14 +20,16 @@ AllowedKinds(cfg, asset, op) ==
   \cup (IF cfg.tsa /\ op = "sign" THEN {"Tsa"} ELSE {})
 
 \* mirror: what the implementation is expected to send (embedded manifests win over the remote reference;
-\* the fixture certificates carry no OCSP responder URL, so no OCSP request is expected in these runs)
+\* only the ocsp_signed fixture's certificate names an OCSP responder)
 ExpectedKinds(cfg, asset, op) ==
      (IF cfg.rmf /\ asset = "remote_only" /\ op \in {"read", "ingredient"} THEN {"Manifest"} ELSE {})
+  \cup (IF asset = "ocsp_signed" /\ ((cfg.ocsp /\ op \in {"read", "ingredient"}) \/ (cfg.csf # "none" /\ cfg.cso /\ op = "ingredient"))
+        THEN {"Ocsp"} ELSE {})
   \cup (IF cfg.tsa /\ op = "sign" THEN {"Tsa"} ELSE {})
 
 VARIABLES cfg, asset, op, sent, result
 vars == <<cfg, asset, op, sent, result>>
-Cfgs == [rmf : BOOLEAN, ocsp : BOOLEAN, csf : {"none", "active", "all"}, tsa : BOOLEAN]
+Cfgs == [rmf : BOOLEAN, ocsp : BOOLEAN, csf : {"none", "active", "all"}, cso : BOOLEAN, tsa : BOOLEAN]
 Init == cfg \in Cfgs /\ asset \in Assets /\ op \in Ops /\ sent = {} /\ result = "pending"
 Run == /\ result = "pending"
        /\ sent' = ExpectedKinds(cfg, asset, op)
